@@ -33,7 +33,9 @@ def features_of(case, rec, fails):
         cols = rec["br_cols"]
         f["prior_adjustment"] = ("uppercase_column" if any(c != c.lower() for c in cols) else "other")
     if "deactivat" in f["failure"]:
-        f["deactivation"] = "keyword_column" if any(c in ("group", "index") for c in rec["br_cols"]) else "other"
+        names = {x for c in rec["before"]["cmps"] for x in c["cols"]}
+        f["deactivation"] = ("keyword_column" if any(c in ("group", "index") for c in rec["br_cols"]) else
+                             "rule_case_differs" if any(c not in names and c.lower() in {n.lower() for n in names} for c in rec["br_cols"]) else "other")
     return f
 
 
@@ -58,7 +60,7 @@ def py_prior(before, br_cols, nl, nb):
 
 def session_oracle(case, rec):
     fails = X.oracle_session(case, rec)
-    spec = py_prior(rec["before"], rec["br_cols"], lambda s: s, lambda s: s)
+    spec = py_prior(rec["before"], rec["br_cols"], str.lower, str.lower)   # identifiers are case-insensitive
     if not X.close(spec, rec["hist"][0]["lam"]):
         fails.insert(0, ("starting prior is not the blocking-adjusted prior",
                          {"implementation": float(rec["hist"][0]["lam"]), "specification": float(spec), "rule_columns": rec["br_cols"]}))
@@ -88,7 +90,10 @@ def loglik_trace(case, rec):
     if not (0 < h0["lam"] < 1):
         return None
     data = [(g, w, []) for g, w, _ in rec["data"]]
-    return [X.loglik(h, data) for h in rec["hist"]]
+    try:
+        return [X.loglik(h, data) for h in rec["hist"]]
+    except (ValueError, ZeroDivisionError):      # parameters left (0,1): the step oracle reports it
+        return None
 
 
 def run_case(ctx: Ctx, case, terms, metas, tag):
@@ -96,6 +101,13 @@ def run_case(ctx: Ctx, case, terms, metas, tag):
     for rec in recs:
         if "skipped" in rec:
             ctx.hist("skipped_session", rec["skipped"][:60])
+            if "resulted in no record pairs" not in rec["skipped"] and not getattr(ctx, "_raised_reported", False):
+                ctx._raised_reported = True
+                # the property quantifies over every rule producing at least one pair: training must not raise
+                small = dict(case, sessions=case["sessions"][: rec["session"] + 1])
+                ctx.violation("EM training raised on a rule that produces pairs: " + rec["skipped"][:200],
+                              {"case": small, "session": rec["session"], "implementation": rec["skipped"], "specification": "a trained session"},
+                              {"failure": "training raised", "backend": case["backend"]})
             continue
         s = rec["flags"]
         fails = session_oracle(case, rec)
@@ -193,11 +205,59 @@ def witness_case(col, backend):
             "sessions": [{"rule": f'l."{col}" = r."{col}"', "fix_m": False, "fix_u": False, "fix_lam": False, "ewtf": True}]}
 
 
+def median_case(backend, seed):
+    """three sessions that all train the same comparisons with nothing fixed: every level gets
+    three numeric estimates, so median and mean differ"""
+    import random
+    rng = random.Random(f"median-{seed}")
+    cols = ["a", "Surname", "c", "group", "index"]
+    rows = [dict(unique_id=i, **{c: rng.choice(["k", "l", "m", None] if c in ("a", "Surname") else ["k", "l", "m"]) for c in cols}) for i in range(26)]
+    comps, truths = [], []
+    for c in ("a", "Surname"):
+        comps.append({"output_column_name": c, "comparison_levels": [
+            {"sql_condition": f'"{c}_l" IS NULL OR "{c}_r" IS NULL', "label_for_charts": "null", "is_null_level": True},
+            {"sql_condition": f'"{c}_l" = "{c}_r"', "label_for_charts": "exact", "m_probability": 0.7, "u_probability": 0.3},
+            {"sql_condition": "ELSE", "label_for_charts": "else", "m_probability": 0.3, "u_probability": 0.7}]})
+        truths.append({"name": c, "exact": [[c], None], "tfcol": None, "cols": [c]})
+    return {"backend": backend, "link_type": "dedupe_only", "tables": [rows], "comparisons": comps, "truth": truths, "prior": 0.2,
+            "max_iterations": 3, "em_convergence": 1e-12,
+            "sessions": [{"rule": f'l."{c}" = r."{c}"', "fix_m": False, "fix_u": False, "fix_lam": False, "ewtf": e}
+                         for c, e in (("c", True), ("group", False), ("index", True))]}
+
+
 def witnesses(ctx: Ctx, terms, metas):
+    for backend in ("duckdb", "sqlite"):
+        run_case(ctx, median_case(backend, ctx.seed), terms, metas, "three-session median")
     for col, kind in (("Surname", "uppercase prior"), ("group", "keyword deactivation"), ("index", "keyword deactivation"),
                       ("first name", "name with a space")):
         for backend in ("duckdb", "sqlite"):
             run_case(ctx, witness_case(col, backend), terms, metas, f"witness:{kind}")
+
+
+def rule_case_witness(ctx: Ctx, terms, metas):
+    """Finding KF-C03-rule-case-deactivation: the training rule spells the column in another case
+    than the comparison (engines resolve identifiers case-insensitively).  Specification: the
+    comparison on that column is deactivated and the prior is adjusted."""
+    for backend in ("duckdb", "sqlite"):
+        case = witness_case("Surname", backend)
+        case["sessions"][0]["rule"] = "l.surname = r.surname"
+        run_case(ctx, case, terms, metas, "witness:rule case")
+        rec = X.run_sessions(case)[0]
+        ctx.cov["evaluations"] += 1
+        if "skipped" in rec:
+            continue            # already reported by run_case
+        trained = [c["name"] for c in rec["hist"][0]["cmps"]]
+        want = py_prior(rec["before"], ["Surname"], lambda s: s, lambda s: s)
+        bad_deact = "Surname" in trained
+        bad_prior = not X.close(want, rec["hist"][0]["lam"])
+        if bad_deact or bad_prior:
+            ctx.violation("EM training rule spelling a column in a different case: " +
+                          ("the comparison on that column is trained instead of deactivated" if bad_deact else "the starting prior is not adjusted"),
+                          {"case": case, "implementation": {"trained_comparisons": trained, "start_prior": float(rec["hist"][0]["lam"])},
+                           "specification": {"trained_comparisons": [n for n in trained if n != "Surname"], "start_prior": float(want)}},
+                          {"deactivation": "rule_case_differs"} if bad_deact else {"prior_adjustment": "rule_case_differs"})
+            return
+    ctx.expect_known("KF-C03-rule-case-deactivation", False, "the comparison is now deactivated")
 
 
 def prior_variants(ctx: Ctx):
@@ -252,6 +312,7 @@ def run(ctx: Ctx):
             run_case(ctx, case, terms, metas, "generated")
         witnesses(ctx, terms, metas)
         prior_variants(ctx)
+        rule_case_witness(ctx, terms, metas)
     bad, errs = ctx.eval_cases("C03_x", X.HEADER, terms, "run_case", shard=6, timeout=900)
     for e in errs:
         ctx.obligation("correspondence shard evaluation", False, e)
